@@ -695,6 +695,14 @@ def r11_record_counters(ctx):
     names = {c[1] for c in counters}
     ctx.check(names <= written | {"ids_len"} or bool(written & names), "counters/serialised", site_of(snd), "counters %s vs serialised %s" % (sorted(names), sorted(written)))
 
+
+def r12_tick_scoped_buffers(ctx):
+    """Removals and despawns are collected on every frame and consumed once per tick after their last reader (same rule as C01.R6):
+    Bevy keeps removal events for two frames only, so a collector that runs on tick frames alone loses early removals of a window."""
+    import rules.C01 as C01
+    C01.r6_tick_buffers(ctx)
+
+
 from rules.first_sight import r_first_sight
 
 RULES = [
@@ -709,5 +717,6 @@ RULES = [
     ("C03.R9", "a despawn supersedes removal records buffered earlier in the tick window (no zombie re-created by a removal after the despawn)", r9_despawn_supersedes, 2, ["default", "all-features", "server-only"]),
     ("C03.R10", "entities reserved by entity mapping are materialised before the next record (handlers end in DeferredEntity::flush, which always flushes the world)", r10_reserved_entities_materialised, 6, ["default", "all-features", "client-only"]),
     ("C03.R11", "element counters that frame the message sections count every record on every path (also when byte ranges are merged)", r11_record_counters, 6, ["default", "all-features", "server-only"]),
+    ("C03.R12", "removal/despawn buffers are filled every frame and consumed once per tick after their last reader (same rule as C01.R6)", r12_tick_scoped_buffers, 10, ["default", "all-features", "server-only"]),
 ]
 THOROUGH_CONFIGS = ["default", "all-features", "server-only", "client-only"]
